@@ -264,6 +264,34 @@ def run(ctx):
             raise AnalysisError('anchor vanished: LatexContextDb.' + name)
         _check_copy_on_derive(ctx, m, name, fn)
 
+    ctx.rule('M12', 'extended_with() / filtered_context(): a path that hands back the database itself (no copy) has not '
+                    'taken any option out of its keyword arguments before: requested overrides (unknown_*_spec) are never '
+                    'dropped', 0)
+    for dn_ in ('extended_with', 'filtered_context'):
+        df_ = meths.get(dn_)
+        if df_ is None:
+            continue
+        try:
+            rc_ = [c for c in symex.Walker(want_returns=True, trace=True, is_sink=lambda c_: call_name(c_) == 'pop' and
+                                           call_recv(c_) is not None and unparse(call_recv(c_)) == (
+                                               df_.args.kwarg.arg if df_.args.kwarg else 'kwargs')).run(df_)
+                   if c.kind == 'return']
+        except symex.TooManyPaths:
+            rc_ = []
+        for c in rc_:
+            if isinstance(c.sub, ast.Name) and c.sub.id == 'self':
+                pops = [t_ for t_ in c.env.get('#trace', ()) if isinstance(t_[0], ast.Call)]
+                ctx.decide('M12', not pops, m, c.node, '%s: returns self before any option was consumed' % dn_,
+                           '%s returns the database itself on the path [%s] after %d option(s) were taken out of its '
+                           'keyword arguments (%s): the requested override is dropped and undefined names keep the '
+                           'parent\'s unknown-spec' % (dn_, ' & '.join(c.cond_src())[-100:], len(pops),
+                                                       short(pops[0][0], 50) if pops else ''),
+                           construct='%s: return self' % dn_)
+    ctx.holds('M12', m, None, 'no path returns the database itself after consuming options', construct='return-self scan',
+              trivial=True)
+    ctx.rule('M11', 'extended_with(): when new definitions are merged into an existing automatically named category the '
+                    'new definition of a name replaces the old one (abstract source-order interpretation of the merge)', 3)
+    merge_precedence(ctx, 'M11', m, meths['extended_with'])
     _ADD_FN[0] = meths.get('add_context_category')
     _check_filtered(ctx, m, meths['filtered_context'])
 
@@ -1262,6 +1290,18 @@ def _check_test_for_specials(ctx, m, fn):
                        construct='test_for_specials: replacement of the best match')
     if not found:
         ctx.unknown('M6', m, o, 'length comparison not found')
+    # what is returned: the best match found by the scan (None when nothing matched) and nothing else
+    none_inits = {unparse(s_.targets[0]) for s_ in fn.body if isinstance(s_, ast.Assign) and len(s_.targets) == 1
+                  and isinstance(s_.value, ast.Constant) and s_.value.value is None}
+    for r_ in [x for x in iter_own(fn) if isinstance(x, ast.Return)]:
+        v_ = r_.value
+        okr = v_ is None or (isinstance(v_, ast.Constant) and v_.value is None) or (
+            isinstance(v_, ast.Name) and v_.id in none_inits)
+        ctx.decide('M6', okr, m, r_, 'returns the best match of the scan (None if there is none)',
+                   'test_for_specials returns %s, which is not the result of the scan: a specification is reported at a '
+                   'position where its characters do not stand (a zero-length specials token at every ordinary '
+                   'character: the tokenizer never advances)' % short(v_, 50) if v_ is not None else '',
+                   construct='test_for_specials: ' + short(r_, 50))
     # initial best length is 0 and result var returned
     z = [s for s in fn.body if isinstance(s, ast.Assign) and isinstance(s.value, ast.Constant)
          and s.value.value == 0]
@@ -1292,6 +1332,13 @@ def _kind_units(fn):
         if isinstance(e, (ast.Tuple, ast.List)) and \
                 {x.value for x in e.elts if isinstance(x, ast.Constant)} >= set(KINDS):
             return
+        if isinstance(e, (ast.DictComp, ast.ListComp, ast.GeneratorExp, ast.SetComp)) and len(e.generators) == 1 and \
+                isinstance(e.generators[0].iter, (ast.Tuple, ast.List)) and \
+                {x.value for x in e.generators[0].iter.elts if isinstance(x, ast.Constant)} >= set(KINDS):
+            # a comprehension over all the kinds: its element is generic in the kind variable
+            elt = ast.Tuple(elts=[e.key, e.value], ctx=ast.Load()) if isinstance(e, ast.DictComp) else e.elt
+            yield elt, 'entry'
+            return
         if isinstance(e, ast.Call) and isinstance(e.func, ast.Name) and e.func.id in _MODFUNCS[0] and \
                 sum(1 for a in e.args if kinds_in(a)) >= 2:
             # positional hand-over of several kind-named lists to a module-level helper: each
@@ -1308,7 +1355,20 @@ def _kind_units(fn):
         if not isinstance(st, ast.stmt):
             continue
         if isinstance(st, (ast.If, ast.While)):
-            yield st.test, 'stmt'
+            # the operands of a conjunction / disjunction are separate tests (an emptiness test of
+            # all three lists mentions each kind once and mixes nothing)
+            def _ops(t_):
+                if isinstance(t_, ast.BoolOp):
+                    for v_ in t_.values:
+                        for o_ in _ops(v_):
+                            yield o_
+                elif isinstance(t_, ast.UnaryOp) and isinstance(t_.op, ast.Not):
+                    for o_ in _ops(t_.operand):
+                        yield o_
+                else:
+                    yield t_
+            for o_ in _ops(st.test):
+                yield o_, 'stmt'
         elif isinstance(st, ast.For):
             if isinstance(st.iter, (ast.Tuple, ast.List)):
                 continue
@@ -1343,3 +1403,147 @@ def _kind_units(fn):
             continue
         elif isinstance(st, (ast.AugAssign,)):
             yield st, 'stmt'
+
+
+
+class _Src(Exception):
+    pass
+
+
+def merge_precedence(ctx, rule, m, fn):
+    """M11: where extended_with() merges new definitions into an existing (automatically named)
+    category, the new definition of a name wins.  The statements of the merge branch are
+    interpreted abstractly: a dictionary value is the ordered list of the sources it was filled
+    from (dict(a) -> [a]; d.update(b) -> d + [b]; dict(a, **b) / {**a, **b} -> [a, b]; a local
+    helper is interpreted on its arguments); for every kind the LAST source must be the new
+    definitions and an earlier one the old category."""
+    branch = None
+    for i in iter_own(fn):
+        if isinstance(i, ast.If) and any(isinstance(x, ast.Call) and call_name(x) == 'startswith' for x in ast.walk(i.test)) \
+                and any(isinstance(r, ast.Return) for r in i.body):
+            branch = i
+            break
+    if branch is None:
+        ctx.unknown(rule, m, fn, 'merge branch of extended_with not found', construct='extended_with: merge precedence')
+        return
+    helpers = {}
+    for st in ast.walk(fn):
+        if isinstance(st, ast.FunctionDef) and st is not fn:
+            helpers[st.name] = st
+    for q, h in m.functions.items():
+        if '.' not in q:
+            helpers.setdefault(q, h)
+    env = {}
+
+    def srcs(e, loc):
+        """ordered sources of a dict-valued expression"""
+        if isinstance(e, ast.Name) and e.id in loc:
+            v = loc[e.id]
+            if isinstance(v, list):
+                return list(v)
+            raise _Src('name %s holds a table of tables' % e.id)
+        if isinstance(e, ast.Subscript) and isinstance(e.value, ast.Name) and e.value.id in loc and \
+                isinstance(loc[e.value.id], dict) and isinstance(e.slice, ast.Constant):
+            return list(loc[e.value.id].get(e.slice.value, [unparse(e)]))
+        if isinstance(e, ast.Call) and isinstance(e.func, ast.Name) and e.func.id == 'dict':
+            out = []
+            if e.args:
+                a0 = e.args[0]
+                if isinstance(a0, ast.Call) and call_name(a0) == 'items' and call_recv(a0) is not None:
+                    a0 = call_recv(a0)
+                out += srcs(a0, loc)
+            for k in e.keywords:
+                if k.arg is None:
+                    out += srcs(k.value, loc)
+                else:
+                    raise _Src('dict() with named entries used as a flat dictionary')
+            return out
+        if isinstance(e, ast.Dict) and e.keys and all(k is None for k in e.keys):
+            out = []
+            for v in e.values:
+                out += srcs(v, loc)
+            return out
+        if isinstance(e, ast.Call) and isinstance(e.func, ast.Name) and e.func.id in helpers and not e.keywords:
+            h = helpers[e.func.id]
+            hp = [a.arg for a in h.args.args]
+            if len(hp) != len(e.args):
+                raise _Src('helper arity')
+            hloc = dict(zip(hp, [srcs(a, loc) for a in e.args]))
+            for st in h.body:
+                r = step(st, hloc)
+                if r is not None:
+                    return r
+            raise _Src('helper %s returns nothing' % h.name)
+        if isinstance(e, ast.Call) and call_name(e) == 'copy' and call_recv(e) is not None and not e.args:
+            return srcs(call_recv(e), loc)
+        return [unparse(e)]
+
+    def step(st, loc):
+        if isinstance(st, ast.Expr) and isinstance(st.value, ast.Constant):
+            return None
+        if isinstance(st, ast.Expr) and isinstance(st.value, ast.Call) and call_name(st.value) in ('debug', 'info', 'warning'):
+            return None
+        if isinstance(st, ast.FunctionDef):
+            return None
+        if isinstance(st, ast.Return):
+            return srcs(st.value, loc) if st.value is not None else []
+        if isinstance(st, ast.Assign) and len(st.targets) == 1:
+            t, v = st.targets[0], st.value
+            tabl = None
+            if isinstance(v, ast.Call) and isinstance(v.func, ast.Name) and v.func.id == 'dict' and not v.args and \
+                    v.keywords and all(k.arg in KINDS for k in v.keywords):
+                tabl = dict((k.arg, srcs(k.value, loc)) for k in v.keywords)
+            elif isinstance(v, ast.Dict) and v.keys and all(isinstance(k, ast.Constant) and k.value in KINDS for k in v.keys):
+                tabl = dict((k.value, srcs(x, loc)) for k, x in zip(v.keys, v.values))
+            if isinstance(t, ast.Name):
+                if tabl is not None:
+                    loc[t.id] = tabl
+                elif isinstance(v, ast.Subscript) and not (isinstance(v.value, ast.Name) and v.value.id in loc):
+                    loc[t.id] = {}            # a table of tables taken from elsewhere (dd[cat]): entries by text
+                    loc[t.id + '#text'] = unparse(v)
+                else:
+                    try:
+                        loc[t.id] = srcs(v, loc)
+                    except _Src:
+                        loc.pop(t.id, None)
+                return None
+            if isinstance(t, ast.Subscript) and isinstance(t.value, ast.Name) and isinstance(loc.get(t.value.id), dict) \
+                    and isinstance(t.slice, ast.Constant):
+                loc[t.value.id][t.slice.value] = srcs(v, loc)
+                return None
+            return None
+        if isinstance(st, ast.Expr) and isinstance(st.value, ast.Call) and call_name(st.value) == 'update':
+            r = call_recv(st.value)
+            if isinstance(r, ast.Name) and isinstance(loc.get(r.id), list) and st.value.args:
+                loc[r.id] = loc[r.id] + srcs(st.value.args[0], loc)
+                return None
+            if isinstance(r, ast.Subscript) and isinstance(r.value, ast.Name) and isinstance(loc.get(r.value.id), dict) \
+                    and isinstance(r.slice, ast.Constant) and st.value.args:
+                cur = loc[r.value.id].get(r.slice.value, [unparse(r)])
+                loc[r.value.id][r.slice.value] = cur + srcs(st.value.args[0], loc)
+                return None
+            return None
+        return None
+
+    # the table that ends up as the category's definitions: the value stored into new_context.d's entry
+    try:
+        for st in branch.body:
+            step(st, env)
+    except _Src as e:
+        ctx.unknown(rule, m, branch, 'merge not interpretable: %s' % e, construct='extended_with: merge precedence')
+        return
+    merged = [k for k, v in env.items() if isinstance(v, dict) and set(v) >= set(KINDS)]
+    if not merged:
+        ctx.unknown(rule, m, branch, 'merged category table not found', construct='extended_with: merge precedence')
+        return
+    tab = env[merged[-1]]
+    for kind in sorted(KINDS):
+        order = tab[kind]
+        new_last = bool(order) and 'new_category_dicts' in order[-1]
+        has_old = any('new_category_dicts' not in o for o in order[:-1])
+        ctx.decide(rule, new_last and has_old, m, branch,
+                   '%s: old definitions first, new definitions last (%s)' % (kind, ' then '.join(order)),
+                   'extended_with() builds the merged %s of the automatically named category from %s: on a name clash '
+                   'the definition applied LAST wins, so the earlier definition survives a re-declaration (a construct '
+                   're-declared as discarded still prints; lookups answer the old specification)'
+                   % (kind, ' then '.join(order) or 'nothing'), construct='extended_with: merge precedence of ' + kind)
